@@ -38,6 +38,12 @@ def _crash_split(tier):
     return [{"engine": "crash", "shards": 4, "args": {"mode": "split", "rounds": 60}}]
 
 
+def _crash_aligned(tier):
+    if tier == "quick":
+        return [{"engine": "crash", "shards": 4, "args": {"mode": "aligned", "rounds": 1}}]
+    return [{"engine": "crash", "shards": 4, "args": {"mode": "aligned", "rounds": 40}}]
+
+
 def _sweep(mode, rq, sq, rt, st):
     def f(tier):
         if tier == "quick":
@@ -195,7 +201,7 @@ PLAN = {
     "C08": {"level": "exploration", "engines": REUSE, "min_nontrivial": 20, "assumptions": CONC_ASSUMPTIONS + ["one writer per key, so each key's writes form a sequence with recorded intervals; readers never modify"]},
     "C02": {"level": "fault_enumeration", "engines": _both(_crash("ack", 14, 240), _crash_chain, _crash_split), "min_nontrivial": 200, "assumptions": CRASH_ASSUMPTIONS},
     "C03": {"level": "fault_enumeration", "engines": _both(_crash("all", 14, 240), _crash_split, _crash_chain), "min_nontrivial": 200, "assumptions": CRASH_ASSUMPTIONS},
-    "C04": {"level": "fault_enumeration", "engines": _both(_crash("idem", 4, 60, cuts_q=50, cuts_t=120), _sweep("bigretire", 2, 2, 24, 8)), "min_nontrivial": 50, "assumptions": CRASH_ASSUMPTIONS},
+    "C04": {"level": "fault_enumeration", "engines": _both(_crash("idem", 4, 60, cuts_q=50, cuts_t=120), _sweep("bigretire", 2, 2, 24, 8), _crash_aligned), "min_nontrivial": 50, "assumptions": CRASH_ASSUMPTIONS},
     "C01": {"level": "exploration", "engines": _model("all"), "min_nontrivial": 500, "assumptions": MODEL_ASSUMPTIONS},
     "C10": {"level": "exploration", "engines": _model("layout", quick_programs=36, thorough_programs=400), "min_nontrivial": 300,
             "assumptions": MODEL_ASSUMPTIONS + ["independent codec M6 (harness/src/indep.rs) is the reader; it shares no code with feoxdb"]},
